@@ -53,8 +53,15 @@ class SqlCrashStream(Stream):
 
     def corpus(self):
         ops = [['add', 'sa', 1, False], ['delete', 'sa'], ['add', 'sb', 2, True], ['get', 'sa']]
+        # a mutation that fails halfway through building the row, then one that succeeds and commits
+        half = [['add', 'sa', 1, False], ['update', 'sa', 2, True], ['add', 'sb', 3, False], ['get', 'sa']]
+        half2 = [['add', 'sa', 1, False], ['add', 'sb', 2, True], ['delete', 'sa'], ['add', 'sb', 4, False]]
         return [{'ops': ops, 'crash_after': 1, 'kind': 'discard'}, {'ops': ops, 'crash_after': 2, 'kind': 'dispose'},
-                {'ops': ops, 'crash_after': 1, 'kind': 'kill'}]
+                {'ops': ops, 'crash_after': 1, 'kind': 'kill'},
+                {'ops': half, 'crash_after': 1, 'kind': 'discard'}, {'ops': half, 'crash_after': 2, 'kind': 'dispose'},
+                {'ops': half, 'crash_after': 2, 'kind': 'kill'},
+                {'ops': half2, 'crash_after': 1, 'kind': 'discard'}, {'ops': half2, 'crash_after': 2, 'kind': 'kill'},
+                {'ops': half2, 'crash_after': 3, 'kind': 'dispose'}]
 
     def generate(self, rng, tier):
         n = 40 if tier == 'quick' else 300
@@ -62,6 +69,22 @@ class SqlCrashStream(Stream):
         for i in range(n):
             keys = ['sa', 'sb', 'sc'][:rng.choice([2, 3])]
             ops = storelib.gen_ops(rng, 'sqlite', rng.randint(2, 10), keys, mut_share=0.85)
+            if i % 3 == 0:
+                # planted: a mutation that fails (either kind: unbindable value at flush, or an exception while the
+                # row is being built) directly followed by a mutation of another key that succeeds
+                present = set()
+                for o in ops:
+                    if o[0] == 'add' and not o[3]:
+                        present.add(o[1])
+                    elif o[0] == 'delete':
+                        present.discard(o[1])
+                k1 = rng.choice(keys)
+                k2 = rng.choice([k for k in keys if k != k1])
+                t = 100 + 2 * i + rng.choice([0, 1])
+                first = ['update', k1, t, True] if k1 in present else ['add', k1, t, True]
+                second = ['delete', k2] if k2 in present and rng.random() < 0.5 else \
+                    (['update', k2, 301 + 2 * i, False] if k2 in present else ['add', k2, 301 + 2 * i, False])
+                ops = ops + [first, second, ['get', k1]]
             for k in range(len(ops)):
                 kind = rng.choice(['discard', 'dispose'])
                 yield {'ops': ops, 'crash_after': k, 'kind': kind}
